@@ -1,38 +1,55 @@
 from props import P
 
 CFG = P(
-        harness=["harness/C06.cc"], srcs=["Image.cc", "Strings.cc", "Filesystem.cc", "Process.cc", "Time.cc", "Encoding.cc"],
+        harness=["harness/C06.cc"], harness_deps=["harness/C06_r2.hh"], srcs=["Image.cc", "Strings.cc", "Filesystem.cc", "Process.cc", "Time.cc", "Encoding.cc"],
         oracle="C06",
         flags=[], cxxflags=[], ldflags=[],
-        deadline={"quick": 600, "thorough": 3600},
+        deadline={"quick": 900, "thorough": 5400},
         rule="a save/load case is non-trivial when its pixel pattern is not constant (coordinate-coded, control bytes, high bit, header-like text), "
              "so a transposed, dropped or re-ordered sample is visible; every generated input variant and every truncated prefix is non-trivial "
-             "(it drives the header parser and the row loops of its container)",
+             "(it drives the header parser and the row loops of its container); every call history (three calls in a fresh process), every ordered pair of object states "
+             "and every overload/stream/context case is non-trivial (its images are coordinate-coded or byte-structured, and consecutive calls differ in size class, stride, alpha, width or container); "
+             "the don't-care probes of section apis are not counted",
         bounds={
-            "quick": "save->load: dims {1..8}x{1..5} u {64x1,1x64,63x2,33x3,17x17} (all widths mod 4) x alpha x channel width {8,16,32,64} x 6 patterns x {PPM,BMP,PNG}; "
-                     "every 8-bit output file decoded by the Python decoders; 124 container variants x 20 dims x 3 patterns loaded; every prefix of every "
-                     "file of 8 small dims (124 variants + phosg's own PPM/BMP output)",
-            "thorough": "save->load: dims {1..64}x{1,2,3,5} u {1..8}x{1..64} u {17x17,33x47,63x61,64x64} x alpha x width x 6 patterns x 3 formats, all 8-bit files decoded "
-                        "independently; 124 variants x 221 dims x 3 patterns; every prefix of every file of 12 dims including 64x1, 63x2, 33x3, 13x9",
+            "quick": "save->load: dims {1..8}x{1..5} u {64x1,1x64,63x2,33x3,17x17} (all widths mod 4) x alpha x channel width {8,16,32,64} x 6 patterns x {PPM,BMP,PNG}, plus boundary dims "
+                     "{255x1,256x1,257x2,1x257,2x256,65536x1,1x65537,300x211} x alpha x {8,16}-bit; every 8-bit output file decoded by the Python decoders; "
+                     "374 container variants (180 core x 20 dims x 3 patterns; 194 extra - header whitespace forms, P7 line order, 22 MAXVAL boundary values x 4 containers, wide RGB, "
+                     "pixel-array gaps, trailing bytes - x 6 dims x 2 patterns), each loaded through 11 deliveries (memory stream, 1- and 7-byte short reads, real file via "
+                     "Image(FILE*) buffered/unbuffered, Image(const char*), Image(std::string), stdin, non-seekable stream, pipe, stdin pipe) and re-saved as PPM/BMP and loaded again; "
+                     "every prefix of every file of 8 small dims (core variants; extra variants over 2 dims; phosg's own PPM/BMP output), each prefix also from a non-seekable short-read stream and as a "
+                     "one-off EINTR read error at the same offset; call histories: every ordered pair (a,b) of 60 save/load calls run as a,b,a in a fresh process; object states: 15 states x 15 x "
+                     "{copy-assign, move-assign, swap} + self-assignment/copy/move construction/set_channel_width/set_has_alpha per state; APIs: 9 images x 3 formats x 14 ways to save x contexts, "
+                     "9 variants x 2 dims x 3 stream kinds x 5 contexts, raw-data constructors, 28 don't-care probes",
+            "thorough": "save->load: dims {1..64}x{1,2,3,5} u {1..8}x{1..64} u {17x17,33x47,63x61,64x64} x alpha x width x 6 patterns x 3 formats + 16 boundary dims up to 65537x2 and 1000x1000, all 8-bit files decoded "
+                        "independently; 180 core variants x 221 dims x 3 patterns + 194 extra x 12 dims x 3 patterns, 11 deliveries + re-save each; every prefix of every file of 12 dims including 64x1, 63x2, 33x3, 13x9; "
+                        "call histories: every ordered triple of the 60 calls; object states: every (dst, src1, src2) triple x 3 transfer kinds; APIs: full product of ways to save x contexts",
         },
         explanation="E-ENUM over the real Image::save/Image(FILE*) with exact-size heap copies under ASan; risky loads run in forked children so a heap overflow is a recorded "
-                    "outcome, not the end of the shard; truncation = fault enumeration over every prefix length; oracle = pattern regenerated independently + stdlib-only "
-                    "PNG/BMP/netpbm decoders in oracles/C06.py",
+                    "outcome, not the end of the shard; truncation = fault enumeration over every prefix length (memory stream, non-seekable stream, read error); call histories run in fresh forked "
+                    "processes so that state carried between calls is reproducible; oracle = pattern regenerated independently + stdlib-only PNG/BMP/netpbm decoders in oracles/C06.py",
         assumptions=[
             "pixel contents are six structured patterns (zeros, all-ones, coordinate hash, the bytes 0A 0D 1A 00 FF, high bit, header-like text), not all 2^(8n) contents",
-            "sample byte order of 16/32/64-bit netpbm files is not compared with external decoders (the statement limits external validity to 8-bit PPM); wide grayscale input passes with either byte order",
-            "don't-care, executed but not judged: saving BMP/PNG from images with channels wider than 8 bits (documented refusal), 32-bit BI_RGB fourth byte, BMP files with gaps before the pixel array, netpbm comments, maxval other than 2^k-1",
-            "truncation means a prefix of a valid file; arbitrary corrupted headers are outside the statement",
+            "sample byte order of 16/32/64-bit netpbm files is not compared with external decoders (the statement limits external validity to 8-bit PPM); wide netpbm input passes with either byte order",
+            "a netpbm MAXVAL is part of the pixels a file defines (it is the scale of every sample): load -> save must keep it; MAXVAL above 65535 selects 32/64-bit samples as phosg documents",
+            "don't-care, executed but not judged: saving BMP/PNG from images with channels wider than 8 bits (documented refusal), 32-bit BI_RGB fourth byte, netpbm comments, CR as the single "
+            "whitespace after MAXVAL, BI_BITFIELDS without an alpha mask (52-byte header), empty (0xN) images, the moved-from object, files with malformed (non-prefix) headers, unknown signatures, "
+            "images embedded at a non-zero stream position, raw-data constructors on short files, channel_width defaulted to 0 in the raw-data constructors, values produced by set_channel_width/set_has_alpha "
+            "(only that their result survives save -> load)",
+            "truncation means a prefix of a valid file, delivered by a memory stream or a non-seekable stream, or a single failed read (EINTR) on the complete file; arbitrary corrupted headers are outside the statement",
+            "a repeated save in one process may produce a different encoding as long as it is valid (recorded as an outcome class, never a violation by itself)",
             "zlib's inflate (through Python's zlib module) is trusted; the chunk CRC is computed by a table-driven implementation written in the oracle and cross-checked with zlib.crc32",
         ],
         engine="E-ENUM",
-        technique="exhaustive enumeration of (dimensions, alpha, channel width, pattern, container variant) and of every truncation point on the real codec, with independent Python decoders and ASan/LSan as oracles",
+        technique="exhaustive enumeration of (dimensions, alpha, channel width, pattern, container variant, delivery), of every truncation point, of call histories, object-state pairs and API overloads/contexts on the real codec, "
+                  "with independent Python decoders and ASan/LSan as oracles",
         level_text="Every image of the dimension/alpha/width/pattern grid is saved by the real code as PPM, BMP and PNG, loaded back (PPM, BMP) and compared bit for bit; every 8-bit "
-                   "output file is decoded by independent stdlib-only decoders (PNG chunk CRCs, zlib stream, IHDR fields, filters; BMP header fields, row order, padding; P6/P7) and compared "
-                   "pixel by pixel with an independently regenerated pattern. Every supported input variant (P5/P6/P7 tuple types and header whitespace forms, BMP 24/32 BI_RGB, BI_BITFIELDS "
-                   "with all 24 byte-mask permutations, both row orders, V3/V4/V5 headers) is generated by code that shares nothing with phosg, validated by the Python decoders, and loaded "
-                   "under ASan; every prefix length of every small file is loaded and must throw or decode identically with no sanitizer report and a balanced heap. Within these bounds "
-                   "the result is a complete enumeration, not a sample.",
-        level_note="Trusted: zlib inflate, glibc fmemopen/open_memstream, the six pixel patterns as representatives of 'all pixel contents'. Not covered: dimensions above 64, "
-                   "byte order of wide netpbm samples against third-party readers, corrupted (non-prefix) files.",
+                   "output file is decoded by independent stdlib-only decoders (PNG chunk CRCs, zlib stream, IHDR fields, filters; BMP header fields, row order, padding; P6/P7 incl. MAXVAL) and compared "
+                   "pixel by pixel with an independently regenerated pattern. Every supported input variant (P5/P6/P7 tuple types, header whitespace forms and line orders, MAXVAL boundaries, BMP 24/32 BI_RGB, BI_BITFIELDS "
+                   "with all 24 byte-mask permutations, both row orders, 40/52/56/108/124-byte headers, pixel-array gaps) is generated by code that shares nothing with phosg, validated by the Python decoders, and loaded "
+                   "under ASan through every loading overload and stream kind (memory, short reads, real files, pipes, stdin); every prefix length of every small file is loaded and must throw or decode identically with no "
+                   "sanitizer report and a balanced heap. Every ordered pair (thorough: triple) of 60 boundary save/load calls is executed as one call history in a fresh process, every ordered pair of 15 object states "
+                   "is copy-assigned, move-assigned and swapped and the result saved, and every save overload/stream kind is exercised in a catch handler, during stack unwinding and under foreign errno values. "
+                   "Within these bounds the result is a complete enumeration, not a sample.",
+        level_note="Trusted: zlib inflate, glibc fmemopen/open_memstream/fopencookie, the six pixel patterns as representatives of 'all pixel contents'. Not covered: dimensions above 65537x2 / 1000x1000, "
+                   "byte order of wide netpbm samples against third-party readers, corrupted (non-prefix) files, short writes and write errors (stdio hides them from the library).",
     )
